@@ -47,6 +47,7 @@
 import PdshVerif.Base.CInt
 import PdshVerif.Gen.Dsh
 import PdshVerif.Gen.Opt
+import PdshVerif.Gen.Optable
 
 namespace PdshVerif.Opt
 open PdshVerif
@@ -87,10 +88,10 @@ structure Defaults where
 def DFLT_FANOUT : Int := (Gen.DFLT_FANOUT : Int)
 def CONNECT_TIMEOUT : Int := (Gen.CONNECT_TIMEOUT : Int)
 
-/-- copies of the private macros of opt.c (compared with the source text by checks/c18.py on every run) -/
-def GEN_ARGS : Str := "hLNKR:M:t:cqf:w:x:l:u:bI:dVT:Q".toList
-def DSH_ARGS : Str := "Sk".toList
-def PCP_ARGS : Str := "pryzZe:".toList
+/-- the getopt strings: private macros of opt.c, read off its source text on every run (harness/consts/optable.c) -/
+def GEN_ARGS : Str := Gen.OT_GEN_ARGS.toList
+def DSH_ARGS : Str := Gen.OT_DSH_ARGS.toList
+def PCP_ARGS : Str := Gen.OT_PCP_ARGS.toList
 
 def optstring (p : Pers) : Str := GEN_ARGS ++ (if p.isPcp then PCP_ARGS else DSH_ARGS)
 
